@@ -171,22 +171,25 @@ f3!(f3_commit_m1_k0_s1_a1_d0_l10, 1, 0, 1, 1, 0, 0, 14, 10);
 /// The chunk constructor alone (private `new_chunk` + `new_chunk_memory_details`), then the
 /// chunk-list destructor: what is recorded in the footer is exactly what was requested from the
 /// global allocator, also for over-aligned chunks (cheap; the full slow path with align 64 costs 4 min).
-pub fn f3_new_chunk<const M: usize, const SIZE: usize, const ALIGN: usize, const DISP: u8, const PREV: bool>() {
+pub fn f3_new_chunk<const M: usize, const SIZE: usize, const ALIGN: usize, const DISP: u8, const PREV: usize>() {
     unsafe {
         pool_reset(0);
         super::f6::CHUNK_ALIGN_OVERRIDE = 16;
         DISPLACE = DISP;
         let layout = Layout::from_size_align(SIZE, ALIGN).unwrap();
         let d = Bump::<M>::new_chunk_memory_details(None, layout).unwrap();
-        if PREV {
+        if PREV > 0 {
             // predecessor: a registered 448-byte chunk that is completely UNUSED (finger at its
             // footer) or partly used (symbolic): creating a new chunk must neither free nor skip it
-            let prev = super::f6::build_list::<M, 1>();
+            // (PREV = 2: the predecessor itself has an older chunk behind it, so its cumulative
+            // allocated_bytes differs from its own usable size)
+            let prev = if PREV == 1 { super::f6::build_list::<M, 1>() } else { super::f6::build_list::<M, 2>() };
             let f = Bump::<M>::new_chunk(d, layout, prev);
             vassert!(NFREE == 0 && !FOREIGN_FREE && ledger_live_count() == NREC, "NEVER: [C03] creating a chunk gave another chunk back to the global allocator");
             if let Some(f) = f {
-                vassert!(NREC == 2 && f.as_ref().prev.get() == prev, "NEVER: [C03,C10] new chunk is not linked in front of its predecessor");
-                vassert!(f.as_ref().allocated_bytes == prev.as_ref().allocated_bytes + (LEDGER[1].size - FOOTER_SIZE), "NEVER: [C08] accounting of a second chunk");
+                vassert!(NREC == PREV + 1 && f.as_ref().prev.get() == prev, "NEVER: [C03,C10] new chunk is not linked in front of its predecessor");
+                vassert!(f.as_ref().allocated_bytes == prev.as_ref().allocated_bytes + (LEDGER[PREV].size - FOOTER_SIZE), "NEVER: [C07,C08] cumulative accounting of a chunk created behind older chunks is not the sum of their usable sizes");
+                vassert!(f.as_ref().allocated_bytes + NREC * FOOTER_SIZE == ledger_live_bytes(), "NEVER: [C07,C08] cumulative accounting differs from the bytes held");
                 kani::cover!(prev.as_ref().ptr.get().as_ptr() as usize == prev.as_ptr() as usize, "REACH: predecessor completely unused");
             }
             kani::cover!(true, "REACH: chunk created behind a predecessor");
@@ -224,7 +227,7 @@ macro_rules! f3n {
         #[kani::stub(crate::core_alloc::alloc::alloc, alloc_pool)]
         #[kani::stub(crate::core_alloc::alloc::dealloc, dealloc_pool)]
         pub fn $name() {
-            f3_new_chunk::<$m, $size, $align, $disp, false>();
+            f3_new_chunk::<$m, $size, $align, $disp, 0>();
         }
     };
 }
@@ -238,12 +241,12 @@ f3n!(f3_new_chunk_m8_s600_a128_d0, 8, 600, 128, 0);
 #[kani::stub(crate::core_alloc::alloc::alloc, alloc_pool)]
 #[kani::stub(crate::core_alloc::alloc::dealloc, dealloc_pool)]
 pub fn f3_new_chunk_prev_m1() {
-    f3_new_chunk::<1, 500, 8, 1, true>();
+    f3_new_chunk::<1, 500, 8, 1, 1>();
 }
 #[kani::proof]
 #[kani::unwind(5)]
 #[kani::stub(crate::core_alloc::alloc::alloc, alloc_pool)]
 #[kani::stub(crate::core_alloc::alloc::dealloc, dealloc_pool)]
 pub fn f3_new_chunk_prev_m16() {
-    f3_new_chunk::<16, 100, 16, 0, true>();
+    f3_new_chunk::<16, 100, 16, 0, 2>();
 }
